@@ -16,19 +16,25 @@
 EXTENDS Integers, Sequences, FiniteSets, TLC
 
 CONSTANTS Tables,     \* sequence of option tables; table = sequence of option records
-                      \*   [sh: code|0, lg: text, kind: "bool"|"int"|"str"|"args"|"abst"|"cnt", pp: BOOLEAN, bit: Nat, dep: BOOLEAN]
+                      \*   [sh: code|0, lg: text, kind: "bool"|"int"|"str"|"args"|"abst"|"cnt", pp: BOOLEAN, bit: Nat, dep: BOOLEAN, arr: BOOLEAN]
+                      \*   pp / dep / arr = the modifier bits PREPARSE / DEPRECATED / ARRAY; the tables carry every subset of them
           TokText,    \* token alphabet: sequence of words (texts)
           TokSets,    \* per table: set of token indexes argv is built from
           MaxArgs,    \* bound on the number of words after the program name (model bound only)
           Flags0,     \* per table: initial content of the shared boolean word (set of bit numbers 0..63: the bits no
                       \* option owns are pre-set to a pattern, all ones in one table, alternating in the other)
           Int0,       \* initial value of every integer target
+          TableSet,   \* the tables (indexes) Init chooses from
+          Histories,  \* the call histories Init chooses from: sequences of settings, one per spifopt_parse() call on the
+                      \* same argv/argc; settings = subset of {"PRE", "REM"} set by the program before that call
           Argvs(_),   \* the argument vectors Init chooses from, per table (ArgvsBounded, or a sampled set of longer ones)
           Emit(_)     \* observation hook, called once per finished behaviour
 
 VARIABLES tb,       \* index of the option table in TBL
-          st,       \* parser settings, subset of {"PRE", "REM"}
-          argv,     \* the words after the program name (token indexes); never changes
+          calls,    \* the history: settings of call 1, 2, ...; never changes
+          ci,       \* index of the call in progress
+          argv0,    \* the words after the program name as the program was started (token indexes); never changes
+          argv,     \* the words the call in progress reads: argv0 until a removing pass has compacted the vector
           phase,    \* "pre" | "main" | "compact" | "done"
           i, l,     \* cursor: word index (1-based), letter index inside a short bundle (0 = at the start of the word)
           flags,    \* TARGET: the boolean word (set of bit numbers)
@@ -37,15 +43,17 @@ VARIABLES tb,       \* index of the option table in TBL
           badLo, badHi, badOpen,   \* bad-option count: lo <= count <= hi, or lo <= count if badOpen
           strict,   \* FALSE once the command line left the argument universe (X)
           re,       \* some string / list target was assigned more than once (the earlier value is the program's to free)
-          snap,     \* <<>> or <<result of the pre-parse pass>>
+          snap,     \* results of the calls finished so far
           cr, out   \* compaction: read cursor, positions written so far
 
-vars == <<tb, st, argv, phase, i, l, flags, tv, mark, badLo, badHi, badOpen, strict, re, snap, cr, out>>
+vars == <<tb, calls, ci, argv0, argv, phase, i, l, flags, tv, mark, badLo, badHi, badOpen, strict, re, snap, cr, out>>
 
 \* TLC evaluates a constant that the cfg substitutes (`TokText <- ...`) again at every use; a constant-level definition
 \* is evaluated once.  The module therefore reads the alphabet and the tables through these two names only.
 TT  == TokText
 TBL == Tables
+
+st == calls[ci]             \* the settings of the call in progress
 
 DASH == 45
 EQ   == 61
@@ -148,7 +156,7 @@ AnyAt(m, k) == [m EXCEPT ![k] = "any"]
 Go(ni, nl, nflags, ntv, nmark, dlo, dhi, opn, nre) ==
     /\ i' = ni /\ l' = nl /\ flags' = nflags /\ tv' = ntv /\ mark' = nmark
     /\ badLo' = badLo + dlo /\ badHi' = badHi + dhi /\ badOpen' = (badOpen \/ opn) /\ re' = (re \/ nre)
-    /\ UNCHANGED <<tb, st, argv, phase, strict, snap, cr, out>>
+    /\ UNCHANGED <<tb, calls, ci, argv0, argv, phase, strict, snap, cr, out>>
 
 Scanning == phase \in {"pre", "main"} /\ i <= NArgs
 P        == IF l = 0 THEN 2 ELSE l                        \* letter position inside a short word
@@ -344,45 +352,59 @@ TvDelta == { <<j, tv[j]>> : j \in { q \in 1 .. NOpt : tv[q] # TV0(q) } }       \
 BadMax == 255
 CapBad(n) == IF n > BadMax THEN BadMax ELSE n
 Result(ph, keepv) == [pass |-> ph, fl |-> flags, tv |-> TvDelta, keep |-> keepv,
+                      same |-> argv = argv0,                    \* the call read the original vector ...
+                      inw |-> IF argv = argv0 THEN <<>> ELSE [k \in 1 .. NArgs |-> Txt(k)],     \* ... or these words
                       badLo |-> CapBad(badLo), badHi |-> CapBad(badHi), badOpen |-> badOpen,
                       sf |-> st \ {"PRE"}]                      \* S: the pre-parse setting is cleared by the pass that used it
-KeepPre  == [k \in 1 .. NArgs |-> IF mark[k] = "keep" THEN 1 ELSE 2]      \* between the passes only non-option words are claimed
+KeepPre  == [k \in 1 .. NArgs |-> IF mark[k] = "keep" THEN 1 ELSE 2]      \* after a pre-parse pass only non-option words are claimed
 KeepAll  == [k \in 1 .. NArgs |-> 1]
 KeepOut  == [k \in 1 .. NArgs |-> IF mark[k] = "any" THEN 2
                                   ELSE IF \E q \in 1 .. Len(out) : out[q] = k THEN 1 ELSE 0]
-Behaviour(passes, ok) == [tb |-> tb, st |-> st, argv |-> [k \in 1 .. NArgs |-> Txt(k)], strict |-> ok,
-                      re |-> re, passes |-> passes]
+Behaviour(passes, ok) == [tb |-> tb, calls |-> calls, argv |-> [k \in 1 .. Len(argv0) |-> TT[argv0[k]]], strict |-> ok,
+                          re |-> re, passes |-> passes]
 
 Finish(passes, ok) ==
     /\ phase' = "done" /\ strict' = ok
-    /\ UNCHANGED <<tb, st, argv, i, l, flags, tv, mark, badLo, badHi, badOpen, re, snap, cr, out>>
+    /\ UNCHANGED <<tb, calls, ci, argv0, argv, i, l, flags, tv, mark, badLo, badHi, badOpen, re, snap, cr, out>>
     /\ Emit(Behaviour(passes, ok))
 
-\* end of the pre-parse pass: remember its result, start the normal pass at the first word
+\* A call has ended with result res.  The program calls spifopt_parse() again with the SAME argv and argc (the parser
+\* returns no new count): the next call reads nargv - the words up to the NULL the previous call left (S: after a
+\* removing pass argv is the kept words, NULL-terminated; whatever lies behind the terminator is not part of the line).
+\* Targets, bad-option count and the boolean word carry over; the program sets the settings of the next call itself.
+\* cut: the continuation is not determined by the statement (a word that may or may not have stayed, E): the history
+\* is compared up to here, the remaining calls are run for termination, memory safety and purity only.
+NextCall(res, nargv, cut) ==
+    IF ci = Len(calls) \/ cut
+    THEN Finish(snap \o <<res>>, strict)
+    ELSE /\ snap' = snap \o <<res>> /\ ci' = ci + 1 /\ argv' = nargv
+         /\ phase' = (IF "PRE" \in calls[ci + 1] THEN "pre" ELSE "main")
+         /\ i' = 1 /\ l' = 0 /\ mark' = [k \in 1 .. Len(nargv) |-> "keep"] /\ cr' = 0 /\ out' = <<>>
+         /\ UNCHANGED <<tb, calls, argv0, flags, tv, badLo, badHi, badOpen, strict, re>>
+
+\* end of a pre-parse pass: argv is not touched by it
 OpPrePassEnd ==
     /\ phase = "pre" /\ i > NArgs
-    /\ snap' = <<Result("pre", KeepPre)>>
-    /\ phase' = "main" /\ i' = 1 /\ l' = 0 /\ mark' = [k \in 1 .. NArgs |-> "keep"]
-    /\ UNCHANGED <<tb, st, argv, flags, tv, badLo, badHi, badOpen, strict, re, cr, out>>
+    /\ NextCall(Result("pre", KeepPre), argv, FALSE)
 
-\* end of the normal pass without argument removal: argv is untouched (S)
+\* end of a normal pass without argument removal: argv is untouched (S)
 OpMainPassEnd ==
     /\ phase = "main" /\ i > NArgs /\ "REM" \notin st
-    /\ Finish(snap \o <<Result("main", KeepAll)>>, strict)
+    /\ NextCall(Result("main", KeepAll), argv, FALSE)
 
-\* end of the normal pass with argument removal: compaction, as the mechanism does it
+\* end of a normal pass with argument removal: compaction, as the mechanism does it
 OpCompactBegin ==
     /\ phase = "main" /\ i > NArgs /\ "REM" \in st
     /\ phase' = "compact" /\ cr' = 1 /\ out' = <<>>
-    /\ UNCHANGED <<tb, st, argv, i, l, flags, tv, mark, badLo, badHi, badOpen, strict, re, snap>>
+    /\ UNCHANGED <<tb, calls, ci, argv0, argv, i, l, flags, tv, mark, badLo, badHi, badOpen, strict, re, snap>>
 OpCompactStep ==
     /\ phase = "compact" /\ cr <= NArgs
     /\ cr' = cr + 1
     /\ out' = IF mark[cr] = "gone" THEN out ELSE Append(out, cr)
-    /\ UNCHANGED <<tb, st, argv, phase, i, l, flags, tv, mark, badLo, badHi, badOpen, strict, re, snap>>
+    /\ UNCHANGED <<tb, calls, ci, argv0, argv, phase, i, l, flags, tv, mark, badLo, badHi, badOpen, strict, re, snap>>
 OpCompactEnd ==
     /\ phase = "compact" /\ cr > NArgs
-    /\ Finish(snap \o <<Result("main", KeepOut)>>, strict)
+    /\ NextCall(Result("main", KeepOut), [q \in 1 .. Len(out) |-> argv[out[q]]], \E k \in 1 .. NArgs : mark[k] = "any")
 
 \* X: the cursor is at a spelling outside the argument universe (no scanner action applies).  The behaviour ends
 \* here; the implementation is still run on this command line, for termination and memory safety only
@@ -402,10 +424,10 @@ Next == ScanStep \/ OpPrePassEnd \/ OpMainPassEnd \/ OpCompactBegin \/ OpCompact
 
 ArgvsOver(T) == UNION { [1 .. n -> T] : n \in 0 .. MaxArgs }
 ArgvsBounded(t) == ArgvsOver(TokSets[t])                 \* every vector of at most MaxArgs words over the table's alphabet
-Init == /\ tb \in 1 .. Len(TBL)
-        /\ st \in SUBSET {"PRE", "REM"}
-        /\ argv \in Argvs(tb)
-        /\ phase = (IF "PRE" \in st THEN "pre" ELSE "main")
+Init == /\ tb \in TableSet
+        /\ calls \in Histories /\ ci = 1
+        /\ argv \in Argvs(tb) /\ argv0 = argv
+        /\ phase = (IF "PRE" \in calls[1] THEN "pre" ELSE "main")
         /\ i = 1 /\ l = 0
         /\ flags = Flags0[tb]
         /\ tv = [j \in 1 .. Len(TBL[tb]) |-> TV(IF TBL[tb][j].kind = "int" THEN Int0 ELSE 0, FALSE, <<>>, <<>>)]
@@ -417,20 +439,22 @@ Spec == Init /\ [][Next]_vars
 
 ---------------------------------------------------------------------------------------------
 (* properties of the reference itself *)
-PhaseNo == CASE phase = "pre" -> 0 [] phase = "main" -> 1 [] phase = "compact" -> 2 [] phase = "done" -> 3
-Rank == PhaseNo * 400000000 + (IF phase = "compact" THEN cr ELSE i) * 20000 + l      \* words < 20000 letters, < 20000 words
+\* (call, scan | compact | done, word, letter); words < 10000 letters, lines < 2000 words, histories < 40 calls
+PhaseNo == 3 * ci + (CASE phase \in {"pre", "main"} -> 0 [] phase = "compact" -> 1 [] phase = "done" -> 2)
+Rank == PhaseNo * 20000000 + (IF phase = "compact" THEN cr ELSE i) * 10000 + l
 
 TypeOK == /\ phase \in {"pre", "main", "compact", "done"}
-          /\ i \in 1 .. (NArgs + 1) /\ l \in {0} \cup 3 .. 19999
+          /\ i \in 1 .. (NArgs + 1) /\ l \in {0} \cup 3 .. 9999
           /\ (Scanning /\ l # 0) => (l <= Len(W) /\ IsShortWord(W))
           /\ \A k \in 1 .. NArgs : mark[k] \in {"keep", "gone", "any"}
           /\ (badOpen \/ badLo <= badHi) /\ badLo >= 0
-          /\ Len(snap) <= 1 /\ ((phase = "pre" \/ "PRE" \notin st) => snap = <<>>)
-          /\ (phase \in {"main", "compact"} /\ "PRE" \in st) => Len(snap) = 1
+          /\ ci \in 1 .. Len(calls) /\ Len(snap) <= Len(calls)
+          /\ (phase # "done") => (Len(snap) = ci - 1 /\ (phase = "pre") = ("PRE" \in st /\ phase # "compact"))
+          /\ (ci = 1) => argv = argv0
 
 \* Terminates: every step strictly advances (pass, word, letter); the rank is bounded, so every reading ends
 Terminates == [][Rank' > Rank]_vars
-RankBounded == Rank <= 3 * 400000000 + (NArgs + 1) * 20000 + 19999
+RankBounded == Rank <= (3 * Len(calls) + 2) * 20000000 + (NArgs + 1) * 10000 + 9999
 
 \* BoolTouchesOnlyMask: a step changes only the bit of the boolean option under the cursor, and only in its own pass
 OwnedBits == { Tb[j].bit : j \in { q \in 1 .. NOpt : Tb[q].kind = "bool" } }
@@ -446,17 +470,19 @@ OtherPassStepOK ==
         \A j \in 1 .. NOpt : ~InPass(j) =>
             (tv'[j] = tv[j] /\ (Tb[j].kind = "bool" => ((Tb[j].bit \in flags') = (Tb[j].bit \in flags))))
 OtherPassUntouched == [][OtherPassStepOK]_vars
-PrePassOnlyPre == phase = "pre" =>
+\* S: the pass an option belongs to is decided by its PREPARSE bit alone, whatever other modifier bits it carries
+PrePassOnlyPre == (phase = "pre" /\ \A c \in 1 .. (ci - 1) : "PRE" \in calls[c]) =>
     \A j \in 1 .. NOpt : ~Tb[j].pp => /\ tv[j] = TV0(j)
                                      /\ (Tb[j].kind = "bool" => ((Tb[j].bit \in flags) = (Tb[j].bit \in Flags0[tb])))
-NoPrePassNoPre == "PRE" \notin st =>
+NoPrePassNoPre == (\A c \in 1 .. ci : "PRE" \notin calls[c]) =>
     \A j \in 1 .. NOpt : Tb[j].pp => /\ tv[j] = TV0(j)
                                     /\ (Tb[j].kind = "bool" => ((Tb[j].bit \in flags) = (Tb[j].bit \in Flags0[tb])))
 \* later occurrences override earlier ones: a target only ever holds the initial value or a value spelled on the line
 \* (checked for integers: the value is the decimal reading of some word or attached value)
 IntFromLine == \A j \in 1 .. NOpt : Tb[j].kind = "int" =>
     \/ tv[j].n = Int0
-    \/ \E k \in 1 .. NArgs, p \in 1 .. 12 : p <= Len(Txt(k)) /\ IsDecimal(Rest(Txt(k), p)) /\ DecVal(Rest(Txt(k), p)) = tv[j].n
+    \/ \E k \in 1 .. Len(argv0), p \in 1 .. 12 :
+          LET w == TT[argv0[k]] IN p <= Len(w) /\ IsDecimal(Rest(w, p)) /\ DecVal(Rest(w, p)) = tv[j].n
 
 \* NonOptionsUntouchedInOrder: a plain word is never "gone" unless it is the value of the option word right before it
 \* or lies behind an argument-list option; words before the cursor that are plain and not preceded by an option word
@@ -480,7 +506,11 @@ NonOptionsUntouchedInOrder ==
 \* ArgvCompacted: the mechanism (read/write cursors) yields exactly the reference filter: program name, then every word
 \* not removed, in the original order, no holes
 KeptRef == SelectSeq([k \in 1 .. NArgs |-> k], LAMBDA k : mark[k] # "gone")
-ArgvCompacted == (phase = "done" /\ strict /\ "REM" \in st) => out = KeptRef
+ArgvCompacted == (phase = "compact" /\ cr > NArgs) => out = KeptRef
+\* a later call never sees more than an earlier one: the vector only shrinks, and only by a removing normal pass
+ArgvShrunk == Len(argv) <= Len(argv0)
+ArgvStepOK == Len(argv') <= Len(argv) /\ (argv' # argv => phase = "compact")
+ArgvOnlyShrinks == [][ArgvStepOK]_vars
 CompactPrefix == phase = "compact" =>
     out = SelectSeq([k \in 1 .. (cr - 1) |-> k], LAMBDA k : mark[k] # "gone")
 ================================================================================
